@@ -412,6 +412,27 @@ def trace(rep, meta, sfx):
                     visited = True
                 if g[0] == "not" and is_contains(g[1]):
                     visited = True
+            # ... and by nothing else that remembers earlier walks: whether following `name` finds a cycle depends on
+            # the trace it is followed from (a reference to a rule already on the trace is skipped), so an answer
+            # recorded under one trace is not valid under another
+            modes = hirq.binding_modes(fn)
+            mut_params = set(p["id"] for p in fn["params"] if p.get("k") == "PBind" and p.get("ty", "").startswith("&mut"))
+            for g in gs:
+                if g[0] not in ("if", "not", "guard"):
+                    continue
+                for y in walk(g[1]):
+                    if kind(y) == "MethodCall" and y["m"] in ("contains", "contains_key", "get", "binary_search"):
+                        rid = hirq.local_id(y["recv"])
+                        if rid is None or rid == tid:
+                            continue
+                        if rid in mut_params or modes.get(rid):
+                            r.violation(key + ":memo", where(y),
+                                        "the recursion through a rule reference is also suppressed by a lookup in `%s`, "
+                                        "a collection that outlives the current descent: a rule is skipped because an "
+                                        "earlier walk (from another start, with another trace) found nothing below it, "
+                                        "but that walk skipped references to rules on ITS trace - a cycle that does not "
+                                        "pass through the first start (a = b; b = c; c = b) is then never reported"
+                                        % hirq.expr_text(y["recv"])[:30])
             if not visited:
                 r.violation(key + ":visited", where(n),
                             "the recursion through a rule reference is not guarded by `!trace.contains(name)`: a "
